@@ -82,6 +82,30 @@ def confirm(mdir, meta):
         shutil.rmtree(wt, ignore_errors=True)
 
 
+def run_check_scratch(mdir, pid, tier):
+    """Like run_check but against a scratch worktree (VERIF_REPO), leaving /repo untouched."""
+    patch = os.path.join(mdir, "patch.diff")
+    wt = tempfile.mkdtemp(prefix="seedrun-", dir="/tmp")
+    os.rmdir(wt)
+    rc, out = sh(["git", "-C", REPO, "worktree", "add", "-q", "--detach", wt, "HEAD"])
+    if rc != 0:
+        return None, "worktree: " + out
+    try:
+        rc, out = sh(["git", "apply", patch], cwd=wt)
+        if rc != 0:
+            return None, "patch does not apply: " + out
+        env = dict(ENV, VERIF_REPO=wt)
+        t0 = time.time()
+        p = subprocess.run([os.path.join(ROOT, "check"), "run", pid, "--tier", tier], cwd=ROOT, env=env, stdout=subprocess.PIPE, stderr=subprocess.STDOUT, timeout=7200)
+        return p.returncode, p.stdout.decode("utf-8", "replace") + "\n[wall %.1fs, scratch worktree]" % (time.time() - t0)
+    finally:
+        sh(["git", "-C", REPO, "worktree", "remove", "--force", wt])
+        shutil.rmtree(wt, ignore_errors=True)
+        for d in os.listdir(os.path.join(ROOT, ".build")):
+            if d.startswith("alt-"):
+                shutil.rmtree(os.path.join(ROOT, ".build", d), ignore_errors=True)
+
+
 def run_check(mdir, pid, tier):
     patch = os.path.join(mdir, "patch.diff")
     before = sh(["git", "-C", REPO, "status", "--porcelain"])[1]
@@ -128,7 +152,7 @@ def main():
     if "--confirm-only" in args:
         print("CONFIRMED")
         return 0
-    rc, out = run_check(mdir, pid, tier)
+    rc, out = (run_check_scratch if "--scratch" in args else run_check)(mdir, pid, tier)
     viol = [l for l in out.splitlines() if l.startswith("VIOLATION") or l.startswith("  ")][:6]
     print("check rc=%s" % rc)
     print("\n".join(viol) if viol else out[-800:])
